@@ -5,6 +5,9 @@
 //   exh      exhaustive fault scripts over a window of <= 6 consecutive packets of the merged packet sequence (every subset
 //            lost, every permutation, one duplicate at every position; the full product of the three for windows <= 4)
 //   sampled  long sequences: identity script + 8 sampled scripts (loss p, duplication p, reorder window w, sender interleaving)
+//   stream   perfect transport of another kind: both gateways on a PacketizedProxyDataIO over an in-memory loss-free byte FIFO whose Read()/Write()
+//            move a PRNG-chosen number of bytes per call (1..7 often, 0 = would block sometimes, everything sometimes, and deliberately amounts
+//            that end inside a 4-byte length prefix); sender and receiver are pumped alternately the way an event loop does; oracle = identity
 //   regress  fixed witnesses (the mis-assembly recipes the mutants need) and the documentation examples of the two headers
 // Oracle: every delivered Message is byte-identical to a Message sent BY THE SENDER WHOSE ADDRESS IT IS ATTRIBUTED TO; with the
 // identity script the delivered list of every sender equals its sent list restricted to the Messages within the gateway's
@@ -13,6 +16,7 @@
 #include "iogateway/MiniPacketTunnelIOGateway.h"
 #include "iogateway/MessageIOGateway.h"
 #include "dataio/PacketDataIO.h"
+#include "dataio/PacketizedProxyDataIO.h"
 #include "system/SetupSystem.h"
 #include "syslog/SysLog.h"
 #include <vector>
@@ -114,14 +118,15 @@ struct Scen {
    bool mini; int zl; int slave; /* 0 none, 1 MessageIOGateway, 2 zlib-6 MessageIOGateway with independent streams, 3 plain zlib-6 MessageIOGateway (dependent streams) */ uint32 mtu, ctorMtu; int ns; int addrKind;
    IPAddressAndPort addr[MAXS]; uint32 idBase[MAXS]; bool viaSetter[MAXS];
    uint32 maxIncoming; bool flushEach; uint32 holdDen; uint32 outMax, inMax; bool equalSize;
+   bool stream; std::vector<MessageRef> msgs;    // mode=stream: one sender, Messages kept for the pump
    std::vector<std::string> sent[MAXS]; std::vector<char> fits[MAXS]; std::vector<Pkt> pk[MAXS];
    std::set<std::string> sentSet[MAXS];
-   Scen() : mini(false), zl(0), slave(0), mtu(1500), ctorMtu(1500), ns(1), addrKind(0), maxIncoming(MUSCLE_NO_LIMIT), flushEach(false), holdDen(0), outMax(MUSCLE_NO_LIMIT), inMax(MUSCLE_NO_LIMIT), equalSize(false)
+   Scen() : mini(false), zl(0), slave(0), mtu(1500), ctorMtu(1500), ns(1), addrKind(0), maxIncoming(MUSCLE_NO_LIMIT), flushEach(false), holdDen(0), outMax(MUSCLE_NO_LIMIT), inMax(MUSCLE_NO_LIMIT), equalSize(false), stream(false)
    { for (int i = 0; i < MAXS; i++) { idBase[i] = 0; viaSetter[i] = false; } }
    const char * Kind() const { return mini ? (slave ? "mini+slave" : "mini") : (slave == 3 ? "tunnel+slavezlibdep" : (slave == 2 ? "tunnel+slavezlib" : (slave ? "tunnel+slave" : "tunnel"))); }
    std::string Describe() const
    {
-      std::string s = vh::fmt("%s zlib=%d slave=%d mtu=%u(ctor %u) senders=%d addrKind=%d maxIncoming=%u flushEach=%d hold=1/%u equalSize=%d;", Kind(), zl, slave, mtu, ctorMtu, ns, addrKind, maxIncoming, (int)flushEach, holdDen, (int)equalSize);
+      std::string s = vh::fmt("%s%s zlib=%d slave=%d mtu=%u(ctor %u) senders=%d addrKind=%d maxIncoming=%u flushEach=%d hold=1/%u equalSize=%d;", stream ? "stream:" : "", Kind(), zl, slave, mtu, ctorMtu, ns, addrKind, maxIncoming, (int)flushEach, holdDen, (int)equalSize);
       for (int i = 0; i < ns; i++) {
          s += vh::fmt(" S%d[idBase=%u%s pkts=%zu sizes=", i, idBase[i], viaSetter[i] ? "(setter)" : "", pk[i].size());
          for (size_t k = 0; k < sent[i].size() && k < 12; k++) s += vh::fmt("%zu%s,", sent[i][k].size(), fits[i][k] ? "" : "!");
@@ -307,6 +312,7 @@ static void Generate(Scen & sc, bool small)
    if (sc.mtu == 64) vh::stat("cases_mtu_64"); if (sc.mtu == 1500) vh::stat("cases_mtu_1500");
    sc.ns = 1 + (int)R(3);
    if (sc.slave == 3) sc.ns = 1;                                    // dependent deflate streams: one source, in order, nothing lost
+   if (sc.stream) sc.ns = 1;
    sc.addrKind = (int)R(4);
    for (int s = 0; s < sc.ns; s++) {
       switch (sc.addrKind) {
@@ -316,6 +322,7 @@ static void Generate(Scen & sc, bool small)
       default: sc.addr[s] = IPAddressAndPort(IPAddress((uint64)0x11, (uint64)0xfe80000000000000ULL, (uint32)(1 + s)), 4000); break;   // only the interface index differs
       }
    }
+   if (sc.stream) sc.addr[0] = IPAddressAndPort();                   // a stream has no packet source: the gateways report the default address
    sc.flushEach = R(4) == 0;
    sc.holdDen = (R(5) == 0) ? 2 + R(6) : 0;
    sc.outMax = R(4) == 0 ? 1 : MUSCLE_NO_LIMIT;
@@ -366,6 +373,7 @@ static void Generate(Scen & sc, bool small)
       for (size_t i = 0; i < sc.sent[s].size(); i++) sc.fits[s].push_back(sc.mini ? (MINI_HDR + MINI_CHUNK_HDR + enc + sc.sent[s][i].size() <= std::max<uint32>(sc.mtu, 17)) : 1);
       if (!sc.mini && R(3) == 0) { sc.idBase[s] = R(2) ? (uint32)(0xFFFFFFFFu - R((uint32)msgs.size() + 2)) : (uint32)g.next(); sc.viaSetter[s] = R(2) == 0; }
       if (sc.mini && R(3) == 0) { sc.idBase[s] = 0xFFFFFFu - R((uint32)msgs.size() + 2); sc.viaSetter[s] = true; }
+      if (sc.stream) { sc.msgs = msgs; sc.viaSetter[s] = sc.idBase[s] != 0; sc.sentSet[s].insert(sc.sent[s].begin(), sc.sent[s].end()); continue; }
       RunSender(sc, s, msgs);
       if (caseBad) return;
       if (!sc.mini && sc.idBase[s] && !sc.viaSetter[s]) { long w = RebaseIDs(sc.pk[s], sc.idBase[s]); if (w) vh::stat("messages_sent_after_id_wraparound", w); vh::stat("senders_with_rebased_ids"); }
@@ -509,6 +517,119 @@ static void CaseSampled(long k, uint64_t cs)
    if (vh::want_sample()) vh::sample(vh::fmt("case %ld: ", k) + curScen);
 }
 
+// ---- mode=stream: the tunnel gateways on PacketizedProxyDataIO over a chopped byte stream
+struct Fifo {
+   std::string buf; size_t rd; std::vector<size_t> starts;    // starts: absolute offsets of the 4-byte length prefixes
+   uint32 hdrHave; uint8 hdr[4]; uint32 payloadLeft;
+   Fifo() : rd(0), hdrHave(0), payloadLeft(0) {}
+   void Append(const uint8 * p, uint32 n) {
+      for (uint32 i = 0; i < n; i++) {
+         if (payloadLeft) payloadLeft--;
+         else { if (hdrHave == 0) starts.push_back(buf.size() + i); hdr[hdrHave++] = p[i]; if (hdrHave == 4) { payloadLeft = DefaultEndianConverter::Import<uint32>(hdr); hdrHave = 0; } }
+      }
+      buf.append((const char *)p, n);
+   }
+   int PrefixPos(size_t off) const {      // 0..3 when (off) lies in a length prefix (known so far), else -1
+      std::vector<size_t>::const_iterator it = std::upper_bound(starts.begin(), starts.end(), off);
+      if (it == starts.begin()) return -1; const size_t st = *(it - 1); return off - st < 4 ? (int)(off - st) : -1; }
+   int WritePrefixPos() const { return payloadLeft ? -1 : (int)hdrHave; }   // where the next appended byte falls
+};
+struct Chop { vh::Rng r; int temper; uint32 zeroDen; std::vector<int> script; size_t scriptAt; bool lastZero[2]; long zeros;
+   Chop(uint64_t seed) : r(seed), temper(0), zeroDen(0), scriptAt(0), zeros(0) { lastZero[0] = lastZero[1] = false; }
+   // dir 0 = read, 1 = write; k = position inside a length prefix or -1
+   uint32 Pick(int dir, uint32 avail, int k) {
+      if (avail == 0) return 0;
+      if (scriptAt < script.size()) { int v = script[scriptAt++]; return v < 0 ? avail : std::min<uint32>((uint32)v, avail); }
+      if (zeroDen && !lastZero[dir] && r.R(zeroDen) == 0) { lastZero[dir] = true; zeros++; return 0; }
+      lastZero[dir] = false;
+      uint32 n;
+      if (k >= 0 && k <= 2 && r.R(2)) n = 1 + r.R(3 - k);                     // end inside the prefix: 1/3, 2/2, 3/1 splits
+      else switch (temper) {
+         case 0: n = 1 + r.R(7); break;
+         case 1: n = r.R(3) ? 1 + r.R(7) : (r.R(2) ? avail : 1 + r.R(avail)); break;
+         case 2: n = r.R(4) ? avail : 1 + r.R(avail); break;
+         default: n = 1 + r.R(avail); break;
+      }
+      return std::min(n, avail);
+   } };
+static long g_splitR[4], g_splitW[4];
+class StreamIO : public DataIO {
+public:
+   Fifo * in, * out; Chop * chop; long calls;
+   StreamIO(Fifo * i, Fifo * o, Chop * c) : in(i), out(o), chop(c), calls(0) {}
+   virtual io_status_t Read(void * b, uint32 size) {
+      calls++; if (!in) return io_status_t((int32)0);
+      const uint32 avail = (uint32)std::min<size_t>(size, in->buf.size() - in->rd);
+      const uint32 n = chop->Pick(0, avail, in->PrefixPos(in->rd));
+      if (n) { memcpy(b, in->buf.data() + in->rd, n); in->rd += n; const int k = in->PrefixPos(in->rd); if (k >= 1 && k <= 3) g_splitR[k]++; }
+      return io_status_t((int32)n); }
+   virtual io_status_t Write(const void * b, uint32 size) {
+      calls++; if (!out) return io_status_t((int32)size);
+      const uint32 n = chop->Pick(1, size, out->WritePrefixPos());
+      if (n) { out->Append((const uint8 *)b, n); const int k = out->WritePrefixPos(); if (k >= 1 && k <= 3) g_splitW[k]++; }
+      return io_status_t((int32)n); }
+   virtual void FlushOutput() {} virtual void Shutdown() {}
+   virtual const ConstSocketRef & GetReadSelectSocket() const { return GetNullSocket(); }
+   virtual const ConstSocketRef & GetWriteSelectSocket() const { return GetNullSocket(); }
+};
+static AbstractMessageIOGatewayRef MakeTunnelGateway(const Scen & sc, bool sender)
+{
+   AbstractMessageIOGatewayRef gw;
+   if (sc.mini) { MiniPacketTunnelIOGateway * mg = new MiniPacketTunnelIOGateway(MakeSlave(sc.slave), sc.ctorMtu); gw.SetRef(mg); if (sender && sc.zl) mg->SetZLibCompressionLevel((uint8)sc.zl); if (sender && sc.viaSetter[0]) (void)PresetPacketCounter(*mg, sc.idBase[0], 0); }
+   else { PacketTunnelIOGateway * tg = new PacketTunnelIOGateway(MakeSlave(sc.slave), sc.ctorMtu); gw.SetRef(tg); if (sender && sc.viaSetter[0]) (void)PresetCounter(*tg, sc.idBase[0], 0); if (!sender) tg->SetMaxIncomingMessageSize(sc.maxIncoming); }
+   return gw;
+}
+// pumps sender and receiver alternately until everything has moved; returns the delivered Messages
+static void PumpStream(const Scen & sc, Chop & wchop, Chop & rchop, std::vector<Got> & got)
+{
+   Fifo fifo; Rx rx; rx.out = &got;
+   PacketizedProxyDataIO * spio = new PacketizedProxyDataIO(DataIORef(new StreamIO(NULL, &fifo, &wchop)), std::max<uint32>(sc.mtu, sc.mini ? 17 : 25));
+   PacketizedProxyDataIO * rpio = new PacketizedProxyDataIO(DataIORef(new StreamIO(&fifo, NULL, &rchop)), std::max<uint32>(sc.mtu, sc.mini ? 17 : 25));
+   AbstractMessageIOGatewayRef sgw = MakeTunnelGateway(sc, true), rgw = MakeTunnelGateway(sc, false);
+   sgw()->SetDataIO(DataIORef(spio)); rgw()->SetDataIO(DataIORef(rpio));
+   size_t next = 0; int idleS = 0, idleR = 0;
+   while (!caseBad) {
+      const bool sWork = next < sc.msgs.size() || sgw()->HasBytesToOutput() || spio->HasBufferedOutput();
+      const bool rWork = fifo.rd < fifo.buf.size();
+      if (!sWork && !rWork) break;
+      if (sWork && (!rWork || R(2))) {
+         const size_t before = fifo.buf.size(); const size_t n0 = next;
+         if (next < sc.msgs.size() && (R(3) == 0 || (!sgw()->HasBytesToOutput() && !spio->HasBufferedOutput()))) { if (sgw()->AddOutgoingMessage(sc.msgs[next++]).IsError()) { fprintf(stderr, "HARNESS-ABORT: AddOutgoingMessage\n"); abort(); } }
+         else if (sgw()->HasBytesToOutput()) { io_status_t r = sgw()->DoOutput(sc.outMax); if (r.IsError()) { Fail(std::string("sender|DoOutput_error|") + sc.Kind(), vh::fmt("DoOutput returned %s on the stream transport", r.GetStatus()())); break; } }
+         else spio->WriteBufferedOutput();
+         if (fifo.buf.size() == before && next == n0) { if (++idleS >= 8) { Fail(std::string("sender|stalled|") + sc.Kind(), "8 sender steps in a row moved nothing although the stream accepted bytes"); break; } } else idleS = 0;
+      }
+      else {
+         const size_t before = fifo.rd;
+         io_status_t r = rgw()->DoInput(rx, sc.inMax);
+         if (r.IsError()) { Fail(std::string("receiver|DoInput_error|") + sc.Kind(), vh::fmt("DoInput returned %s on the stream transport (%zu of %zu stream bytes read)", r.GetStatus()(), fifo.rd, fifo.buf.size())); break; }
+         if (fifo.rd == before) { if (++idleR >= 8) { Fail(std::string("receiver|stalled|") + sc.Kind(), "8 receiver steps in a row read nothing although stream bytes were available"); break; } } else idleR = 0;
+      }
+   }
+   vh::stat("stream_bytes", (long)fifo.buf.size()); vh::stat("stream_packets", (long)fifo.starts.size()); vh::statmax("max_stream_packets_in_a_case", (long)fifo.starts.size());
+   sgw()->SetDataIO(DataIORef()); rgw()->SetDataIO(DataIORef());
+}
+static void FlushSplitStats()
+{
+   for (int k = 1; k <= 3; k++) { if (g_splitR[k]) { vh::stat(vh::fmt("length_prefix_split_across_reads_%d_%d", k, 4 - k), g_splitR[k]); vh::stat("length_prefixes_split_across_reads", g_splitR[k]); } if (g_splitW[k]) { vh::stat(vh::fmt("length_prefix_split_across_writes_%d_%d", k, 4 - k), g_splitW[k]); vh::stat("length_prefixes_split_across_writes", g_splitW[k]); } g_splitR[k] = g_splitW[k] = 0; }
+}
+static void CaseStream(long k, uint64_t cs)
+{
+   g = vh::Rng(cs); caseBad = false; g_oversize = false; curScript = "(stream)"; curScen = "";
+   Scen sc; sc.stream = true; Generate(sc, R(3) == 0); curScen = sc.Describe();
+   if (caseBad) return;
+   Chop wchop(g.next()), rchop(g.next());
+   wchop.temper = (int)R(4); rchop.temper = (int)R(4); wchop.zeroDen = R(3) ? 2 + R(8) : 0; rchop.zeroDen = R(3) ? 2 + R(8) : 0;
+   curScript = vh::fmt("stream: write temper %d would-block 1/%u, read temper %d would-block 1/%u", wchop.temper, wchop.zeroDen, rchop.temper, rchop.zeroDen);
+   std::vector<Got> got; PumpStream(sc, wchop, rchop, got);
+   vh::stat("fault_scripts"); vh::stat("identity_scripts"); vh::stat("stream_cases"); vh::stat(std::string("stream_cases_kind_") + sc.Kind()); if (sc.mini && sc.zl) vh::stat("stream_cases_mini_zlib");
+   vh::stat("stream_would_block_reads", rchop.zeros); vh::stat("stream_would_block_writes", wchop.zeros); vh::stat("messages_sent", (long)sc.msgs.size()); vh::stat("messages_delivered", (long)got.size());
+   if (!caseBad) Judge(sc, got, true);
+   FlushSplitStats();
+   vh::distinct(vh::fnvs(curScen, vh::fnv(&cs, sizeof(cs))), sc.msgs.size() >= 2);
+   if (vh::want_sample()) vh::sample(vh::fmt("case %ld: ", k) + curScen + " | " + curScript);
+}
+
 // ---- fixed witnesses and documentation examples
 static void SendAll(Scen & sc, int s, const std::vector<MessageRef> & msgs)
 {
@@ -615,6 +736,36 @@ static void Regress()
          vh::distinct(51 + v);
       }
    }
+   {  // PacketizedProxyDataIO over a byte stream: the 4-byte length prefix of three consecutive packets arrives split 1/3, 2/2, 3/1
+      // (reads), and is accepted by the stream split the same way (writes); nothing is lost on a stream, so every Message is delivered
+      for (int v = 0; v < 3; v++) {
+         Scen sc; sc.stream = true; sc.mini = (v == 2); sc.mtu = sc.ctorMtu = 200; sc.ns = 1; caseBad = false; sc.flushEach = true;
+         vh::begin_case(60 + v); curScript = v == 0 ? "regress: length prefix split across reads" : "regress: length prefix split across writes (and reads for the mini tunnel)";
+         for (int i = 0; i < 5; i++) { MessageRef m = MakeMsg(1 + i, 40 + i, 0, 1 + i); sc.msgs.push_back(m); ByteBufferRef b = m()->FlattenToByteBuffer(); sc.sent[0].push_back(std::string((const char *)b()->GetBuffer(), b()->GetNumBytes())); sc.fits[0].push_back(FIT_YES); }
+         sc.sentSet[0].insert(sc.sent[0].begin(), sc.sent[0].end()); curScen = sc.Describe();
+         Chop wchop(1), rchop(2); wchop.temper = rchop.temper = 2;
+         static const int split[] = {1, 3, -1, 2, 2, -1, 3, 1, -1, 1, 1, 1, 1, -1};
+         if (v != 0) wchop.script.assign(split, split + 14); else wchop.script.assign(64, -1);
+         if (v != 1) rchop.script.assign(split, split + 14); else rchop.script.assign(64, -1);
+         // every Message is flushed before the next one is queued, so each packet carries one Message and the scripts line up with the packets
+         std::vector<Got> got;
+         {
+            Fifo fifo; Rx rx; rx.out = &got;
+            PacketizedProxyDataIO * spio = new PacketizedProxyDataIO(DataIORef(new StreamIO(NULL, &fifo, &wchop)), 200), * rpio = new PacketizedProxyDataIO(DataIORef(new StreamIO(&fifo, NULL, &rchop)), 200);
+            AbstractMessageIOGatewayRef sgw = MakeTunnelGateway(sc, true), rgw = MakeTunnelGateway(sc, false); sgw()->SetDataIO(DataIORef(spio)); rgw()->SetDataIO(DataIORef(rpio));
+            for (size_t i = 0; i < sc.msgs.size(); i++) { (void)sgw()->AddOutgoingMessage(sc.msgs[i]); for (int t = 0; t < 20 && (sgw()->HasBytesToOutput() || spio->HasBufferedOutput()); t++) { if (sgw()->HasBytesToOutput()) (void)sgw()->DoOutput(); else spio->WriteBufferedOutput(); } }
+            for (int t = 0; t < 200 && fifo.rd < fifo.buf.size(); t++) (void)rgw()->DoInput(rx);
+            if (fifo.starts.size() != 5) { fprintf(stderr, "HARNESS-ABORT: regress stream layout: %zu packets\n", fifo.starts.size()); abort(); }
+            sgw()->SetDataIO(DataIORef()); rgw()->SetDataIO(DataIORef());
+         }
+         const long sr = g_splitR[1] + g_splitR[2] + g_splitR[3], sw = g_splitW[1] + g_splitW[2] + g_splitW[3];
+         if ((v != 1 && (g_splitR[1] < 1 || g_splitR[2] < 1 || g_splitR[3] < 1)) || (v != 0 && (g_splitW[1] < 1 || g_splitW[2] < 1 || g_splitW[3] < 1))) { fprintf(stderr, "HARNESS-ABORT: regress stream: prefixes were not split as scripted (%ld reads, %ld writes)\n", sr, sw); abort(); }
+         FlushSplitStats();
+         bool same = got.size() == sc.sent[0].size(); for (size_t i = 0; same && i < got.size(); i++) if (got[i].bytes != sc.sent[0][i]) same = false;
+         if (!same) Fail("packetized_stream_length_prefix_split", vh::fmt("5 Messages sent over a loss-free stream, %zu delivered (or different ones)", got.size()));
+         vh::distinct(61 + v);
+      }
+   }
    {  // "If bytesWritten is set to zero, we just hold this buffer until our next call" (mini tunnel, zlib): a held packet whose deflation did not pay,
       // then a compressible Message joins the same packet
       Scen sc; sc.mini = true; sc.zl = 6; sc.mtu = sc.ctorMtu = 1500; sc.ns = 1; sc.addr[0] = IPAddressAndPort(IPAddress((uint64)0x7f000001, 0), 4000); caseBad = false;
@@ -658,7 +809,8 @@ int main(int argc, char ** argv)
    for (long k = c.from; k < c.from + c.cases; k++) {
       vh::begin_case(k);
       g_lostToFaults = g_dupDeliveries = 0;
-      if (mode == "exh") CaseExhaustive(k, vh::case_seed(c.seed, 1201, (uint64_t)k));
+      if (mode == "stream") CaseStream(k, vh::case_seed(c.seed, 1203, (uint64_t)k));
+      else if (mode == "exh") CaseExhaustive(k, vh::case_seed(c.seed, 1201, (uint64_t)k));
       else CaseSampled(k, vh::case_seed(c.seed, 1202, (uint64_t)k));
       vh::stat("messages_lost_to_faults", g_lostToFaults); vh::stat("scripts_with_a_message_delivered_more_often_than_sent", g_dupDeliveries);
    }
